@@ -104,8 +104,12 @@ impl DiagnosticEmitter {
             let mut diag = diag.clone();
             diag.labels = labels;
 
-            codespan_reporting::term::emit(&mut self.writer, &self.config, &code_map, &diag)
-                .unwrap();
+            // When the output cannot be written (closed pipe, full disk) there is nobody left to tell
+            if codespan_reporting::term::emit(&mut self.writer, &self.config, &code_map, &diag)
+                .is_err()
+            {
+                return;
+            }
         }
     }
 }
